@@ -1,4 +1,5 @@
 import PyhfProofs.Lemmas.Logpdf
+import PyhfProofs.Lemmas.Argsort
 /-!
 # C02 — the log-likelihood is exactly the HistFactory template
 
@@ -141,5 +142,59 @@ theorem C02_tau_shapesys (sd md : List ℝ) :
   by_cases h : 0 < b ∧ 0 < a
   · simp only [h, and_self, if_true, e, div_pow]
   · simp only [h, if_false]
+
+/-- **`expected_auxdata`**: the stitched vector of normal means and Poisson rates carries, at auxiliary position `k`,
+the mean (`θ_{p,i}`) resp. rate (`θ_{p,i}·τ_{p,i}`) of the constraint term that reads the auxiliary datum at position `k` —
+the `[normal, poisson]` viewer's argsort stitch undoes the grouping by constraint type. -/
+theorem C02_expected_auxdata (m : Model ℝ) (hp : paramsetsOK m = true) (par : Nat → ℝ) :
+    expectedAux m par = (constraintTerms m par).map (·.loc) := by
+  have haux : (constraintTerms m par).map (·.auxIdx) = List.range (auxData m.ps).length :=
+    C02_aux_partition m hp par
+  have hlen : (auxData m.ps).length = (constraintTerms m par).length := naux_eq_terms m hp par
+  have hnd : normalData m (fun _ => (0 : ℝ)) = ((constraintTerms m par).filter (·.kind == .normal)).map (·.auxIdx) :=
+    filter_kind_auxIdx m _ par .normal
+  have hpd : poissonData m (fun _ => (0 : ℝ)) = ((constraintTerms m par).filter (·.kind == .poisson)).map (·.auxIdx) :=
+    filter_kind_auxIdx m _ par .poisson
+  unfold expectedAux
+  simp only []
+  generalize hts : constraintTerms m par = ts at *
+  set nT := ts.filter (·.kind == .normal) with hnT
+  set pT := ts.filter (·.kind == .poisson) with hpT
+  have hperm : (nT ++ pT).Perm ts := by
+    have : pT = ts.filter (fun t => !(t.kind == CKind.normal)) := by
+      apply List.filter_congr; intro t _; exact ct_kind_cases t
+    rw [this]; exact List.filter_append_perm _ ts
+  have hparts : (constraintsTV m).parts.flatten = (nT ++ pT).map (·.auxIdx) := by
+    unfold constraintsTV
+    simp only [hnd, hpd]
+    rw [flatten_opt2, List.map_append]
+  set data : List (List ℝ) := (if (nT.map (·.loc)).isEmpty then [] else [nT.map (·.loc)]) ++
+      (if (pT.map (·.loc)).isEmpty then [] else [pT.map (·.loc)]) with hdata
+  have hdataf : data.flatten = (nT ++ pT).map (·.loc) := by
+    rw [hdata, flatten_opt2, List.map_append]
+  have hplen : (constraintsTV m).parts.flatten.length = ts.length := by
+    rw [hparts, List.length_map]; exact hperm.length_eq
+  have hpp : (constraintsTV m).parts.flatten.Perm (List.range (constraintsTV m).parts.flatten.length) := by
+    rw [hplen, hparts, ← hlen, ← haux]
+    exact hperm.map _
+  apply List.ext_getElem
+  · simp only [TV.stitch, TV.sorted, List.length_map, argsort_length, hplen]
+  · intro j h1 h2
+    rw [List.length_map] at h2
+    have hmem : ts[j] ∈ nT ++ pT := hperm.mem_iff.mpr (List.getElem_mem h2)
+    obtain ⟨i, hi, hie⟩ := List.mem_iff_getElem.mp hmem
+    have hi' : i < (constraintsTV m).parts.flatten.length := by rw [hparts, List.length_map]; exact hi
+    have hj : ts[j].auxIdx = j := by
+      have := congrArg (fun l => l[j]?) haux
+      simp only [List.getElem?_map, List.getElem?_eq_getElem h2, Option.map_some] at this
+      rw [List.getElem?_range (by omega)] at this
+      exact Option.some.inj this
+    have hk : (constraintsTV m).parts.flatten.getD i 0 = j := by
+      rw [List.getD_eq_getElem _ _ hi']
+      simp only [hparts, List.getElem_map, hie, hj]
+    have hs := stitch_spec (constraintsTV m) (0 : ℝ) data hpp i hi'
+    rw [hk, List.getD_eq_getElem _ _ h1] at hs
+    rw [hs, List.getD_eq_getElem _ _ (by rw [hdataf, List.length_map]; exact hi)]
+    simp only [hdataf, List.getElem_map, hie]
 
 end Pyhf.Props.C02
